@@ -17,6 +17,9 @@ args = sys.argv[1:]
 jobs = 4
 if "--jobs" in args:
     jobs = int(args[args.index("--jobs") + 1]); del args[args.index("--jobs"):args.index("--jobs") + 2]
+pairs = None
+if "--pairs" in args:   # json list of [name, [checks...]]: run these (patch, check) pairs instead of the owning checks
+    pairs = dict(json.load(open(args[args.index("--pairs") + 1]))); del args[args.index("--pairs"):args.index("--pairs") + 2]
 do_equiv, do_base, do_check = "--equiv" in args, "--baseline" in args, "--check" in args
 names = [a for a in args if not a.startswith("--")] or sorted(os.listdir(V + "/harmless"))
 names = [n for n in names if os.path.exists("%s/harmless/%s/patch.diff" % (V, n))]
@@ -116,6 +119,6 @@ with cf.ThreadPoolExecutor(jobs) as ex:
         by = {}
         for n in names:
             m = json.load(open("%s/harmless/%s/meta.json" % (V, n)))
-            for c in (m["checks"] if "checks" in m else [m.get("property")]):
+            for c in (pairs.get(n, []) if pairs is not None else (m["checks"] if "checks" in m else [m.get("property")])):
                 by.setdefault(c, []).append(n)
         list(ex.map(lambda kv: run_check_group(*kv), sorted(by.items())))
